@@ -3,10 +3,17 @@
   The range-expansion and fitting heuristics are tied relationally: the Lean monitor `insideNode` is
   evaluated on every step the real replace-family operations emit for ranges inside an isolating node;
   this theorem says what a true monitor implies.  Helpers: Proofs/Respects.lean.
+
+  Second part: the three helper functions the property anchors (`covered_depths`, `lift_target`,
+  `can_split`; model PM/Structure.lean, helpers Proofs/Structure.lean) never produce an answer that
+  crosses the boundary of an isolating ancestor.  `S.isolating n` is the `isolating` flag of the
+  type of `n`; ancestors, `start`/`end_` windows, `before`/`after` are those of `RPos` (C09).
 -/
 import PM.Monitor
+import PM.Structure
 import Proofs.StepToks
 import Proofs.Respects
+import Proofs.Structure
 namespace PM.C18
 open PM
 
@@ -142,5 +149,154 @@ theorem pure_insert_keeps_all (S : Schema) (doc doc' : Node) (a b : Nat) (st : S
     subst hFT
     exact ⟨F, sl.toks, (apply_replace_toks S doc doc' F F sl s h).1, hout⟩
   | _ => simp [pureInsertOutside] at hm
+
+/-! ## The helper functions: `covered_depths`, `lift_target`, `can_split` -/
+
+/-- `covered_depths` returns a strictly decreasing list of depths, none deeper than the shallower
+    of the two positions -/
+theorem coveredDepths_sorted (S : Schema) (doc : Node) (f t : Nat) (rf rt : RPos) (ds : List Nat)
+    (hf : doc.resolve f = some rf) (ht : doc.resolve t = some rt)
+    (h : coveredDepths S doc f t = some ds) :
+    ds.Pairwise (· > ·) ∧ ∀ d ∈ ds, d ≤ min rf.depth rt.depth := by
+  simp only [coveredDepths, hf, ht, Option.some.injEq] at h
+  subst h
+  refine ⟨coveredLoop_pairwise S rf rt _, fun d hd => ?_⟩
+  have := (coveredLoop_mem S rf rt _ d hd).1
+  omega
+
+/-- **range expansion stops at isolating ancestors**: if the depth-`k` ancestor of `from` or of `to`
+    is isolating, every depth that `covered_depths` reports is strictly deeper than `k` -/
+theorem coveredDepths_below_isolating (S : Schema) (doc : Node) (f t : Nat) (rf rt : RPos)
+    (ds : List Nat) (hf : doc.resolve f = some rf) (ht : doc.resolve t = some rt)
+    (h : coveredDepths S doc f t = some ds)
+    (k : Nat) (hkf : k ≤ rf.depth) (hkt : k ≤ rt.depth)
+    (hiso : S.isolating (rf.node k) = true ∨ S.isolating (rt.node k) = true) :
+    ∀ d ∈ ds, k < d := by
+  simp only [coveredDepths, hf, ht, Option.some.injEq] at h
+  subst h
+  intro d hd
+  obtain ⟨_, _, h3⟩ := coveredLoop_mem S rf rt _ d hd
+  rcases Nat.lt_or_ge k d with hlt | hge
+  · exact hlt
+  · have hb := h3 k hge (by omega)
+    rw [coveredBreak_of_isolating S rf rt k hiso] at hb
+    exact absurd hb (by simp)
+
+/-- a reported depth `d`: the two positions have the same ancestors (same node, same content
+    window) at every depth above `d` -/
+theorem coveredDepths_shared_ancestors (S : Schema) (doc : Node) (f t : Nat) (rf rt : RPos)
+    (ds : List Nat) (hf : doc.resolve f = some rf) (ht : doc.resolve t = some rt)
+    (h : coveredDepths S doc f t = some ds) (d : Nat) (hd : d ∈ ds) (i : Nat) (hi : i < d) :
+    rf.node i = rt.node i ∧ rf.start i = rt.start i ∧ rf.end_ i = rt.end_ i := by
+  have hle := (coveredDepths_sorted S doc f t rf rt ds hf ht h).2 d hd
+  simp only [coveredDepths, hf, ht, Option.some.injEq] at h
+  subst h
+  have hh := (coveredLoop_mem S rf rt _ d hd).2.1
+  exact coveredHit_shared S (resolve_resolved hf) (resolve_resolved ht) d (by omega) (by omega) hh i hi
+
+/-- **the expanded range stays inside the isolating node**: for a reported depth `d` (necessarily
+    `≥ 1` and deeper than the isolating ancestor at depth `k`), the range
+    `[from.before(d), to.after(d)]` that `delete_range` / `replace_range` use contains `[from, to]`
+    and lies within the content window `[start(k), end(k)]` of the isolating ancestor — which is
+    the same node, with the same window, for `from` and `to` -/
+theorem coveredDepths_range_inside (S : Schema) (doc : Node) (f t : Nat) (rf rt : RPos)
+    (ds : List Nat) (hf : doc.resolve f = some rf) (ht : doc.resolve t = some rt)
+    (h : coveredDepths S doc f t = some ds)
+    (k : Nat) (hkf : k ≤ rf.depth) (hkt : k ≤ rt.depth)
+    (hiso : S.isolating (rf.node k) = true ∨ S.isolating (rt.node k) = true)
+    (d : Nat) (hd : d ∈ ds) :
+    1 ≤ d ∧
+    rf.node k = rt.node k ∧ rf.start k = rt.start k ∧ rf.end_ k = rt.end_ k ∧
+    ∃ b a, rf.before d = some b ∧ rt.after d = some a ∧
+      rf.start k ≤ b ∧ b ≤ f ∧ t ≤ a ∧ a ≤ rf.end_ k := by
+  have hkd := coveredDepths_below_isolating S doc f t rf rt ds hf ht h k hkf hkt hiso d hd
+  have hle := (coveredDepths_sorted S doc f t rf rt ds hf ht h).2 d hd
+  obtain ⟨hn, hs, he⟩ := coveredDepths_shared_ancestors S doc f t rf rt ds hf ht h d hd k hkd
+  have Rf := resolve_resolved hf
+  have Rt := resolve_resolved ht
+  have nf := Rf.nestW k d (by omega) (by omega)
+  have nt := Rt.nestW k d (by omega) (by omega)
+  have pf := Rf.pos_in d (by omega)
+  have pt := Rt.pos_in d (by omega)
+  refine ⟨by omega, hn, hs, he, rf.start d - 1, rt.end_ d + 1,
+    Rf.before_eq d (by omega) (by omega), Rt.after_eq d (by omega) (by omega), ?_, ?_, ?_, ?_⟩
+  all_goals omega
+
+/-- **lift refuses to cross**: when `lift_target` answers depth `d`, it is shallower than the
+    range's depth, and no ancestor of `from` that the lifted content leaves (depths `d+1 … depth`)
+    is isolating — the loop never steps out of an isolating node -/
+theorem liftTarget_not_across_isolating (S : Schema) (doc : Node) (f t depth d : Nat) (rf rt : RPos)
+    (hf : doc.resolve f = some rf) (ht : doc.resolve t = some rt)
+    (h : liftTarget S doc f t depth = some (some d)) :
+    d < depth ∧ depth ≤ rf.depth ∧ depth ≤ rt.depth ∧
+    ∀ j, d < j → j ≤ depth → S.isolating (rf.node j) = false := by
+  simp only [liftTarget, hf, ht, liftTargetR] at h
+  split at h
+  · simp at h
+  · rename_i hg
+    simp only [Bool.or_eq_true, decide_eq_true_eq, not_or, Nat.not_lt] at hg
+    obtain ⟨_, h2, _, h4⟩ := liftLoop_spec S rf rt depth _ depth d h
+    exact ⟨h2, hg.1, hg.2, fun j hj1 hj2 => (h4 j hj1 hj2).1⟩
+
+/-- consequently the target stays inside every isolating ancestor of the range: an isolating
+    ancestor at depth `k ≤ depth` has `k ≤ d` -/
+theorem liftTarget_stays_inside (S : Schema) (doc : Node) (f t depth d : Nat) (rf rt : RPos)
+    (hf : doc.resolve f = some rf) (ht : doc.resolve t = some rt)
+    (h : liftTarget S doc f t depth = some (some d))
+    (k : Nat) (hk : k ≤ depth) (hiso : S.isolating (rf.node k) = true) : k ≤ d := by
+  obtain ⟨_, _, _, h4⟩ := liftTarget_not_across_isolating S doc f t depth d rf rt hf ht h
+  rcases Nat.lt_or_ge d k with hlt | hge
+  · have := h4 k hlt hk
+    rw [hiso] at this
+    exact absurd this (by simp)
+  · exact hge
+
+/-- what the answer means: the lifted children fit between the siblings at depth `d`, and every
+    node left on the way (depths `d+1 … depth`) could be cut around the range -/
+theorem liftTarget_fits (S : Schema) (doc : Node) (f t depth d : Nat) (rf rt : RPos)
+    (hf : doc.resolve f = some rf) (ht : doc.resolve t = some rt)
+    (h : liftTarget S doc f t depth = some (some d)) :
+    S.nodeCanReplace (rf.node d) (rf.index d) (rt.indexAfter d)
+      (cutByIndex (rf.node depth).kids (rf.index depth) (rt.indexAfter depth)) = some true ∧
+    ∀ j, d < j → j ≤ depth →
+      S.canCut (rf.node j) (rf.index j) (rt.indexAfter j) = some true := by
+  simp only [liftTarget, hf, ht, liftTargetR] at h
+  split at h
+  · simp at h
+  · obtain ⟨_, _, h3, h4⟩ := liftLoop_spec S rf rt depth _ depth d h
+    exact ⟨h3, fun j hj1 hj2 => (h4 j hj1 hj2).2⟩
+
+/-- **split refuses to cross**: when `can_split(doc, pos, depth)` answers true, `1 ≤ depth ≤
+    depth(pos)` and none of the nodes that get split — the ancestors of `pos` at depths
+    `depth(pos) − depth + 1 … depth(pos)` — is isolating -/
+theorem canSplit_not_across_isolating (S : Schema) (doc : Node) (pos depth : Nat) (r : RPos)
+    (hr : doc.resolve pos = some r) (h : canSplit S doc pos depth = some true) :
+    1 ≤ depth ∧ depth ≤ r.depth ∧
+    ∀ j, r.depth - depth + 1 ≤ j → j ≤ r.depth → S.isolating (r.node j) = false := by
+  simp only [canSplit, hr] at h
+  exact canSplitR_true S r depth h
+
+/-- consequently every node that gets split lies inside each isolating ancestor of `pos`: an
+    isolating ancestor at depth `k` is at or above the split's base, and the outermost split node
+    (depth `depth(pos) − depth + 1`) sits, open and close token included, within its content window -/
+theorem canSplit_stays_inside (S : Schema) (doc : Node) (pos depth : Nat) (r : RPos)
+    (hr : doc.resolve pos = some r) (h : canSplit S doc pos depth = some true)
+    (k : Nat) (hk : k ≤ r.depth) (hiso : S.isolating (r.node k) = true) :
+    k ≤ r.depth - depth ∧
+    ∃ b a, r.before (r.depth - depth + 1) = some b ∧ r.after (r.depth - depth + 1) = some a ∧
+      r.start k ≤ b ∧ b < pos ∧ pos < a ∧ a ≤ r.end_ k := by
+  obtain ⟨h1, h2, h3⟩ := canSplit_not_across_isolating S doc pos depth r hr h
+  have hkb : k ≤ r.depth - depth := by
+    rcases Nat.lt_or_ge (r.depth - depth) k with hlt | hge
+    · have := h3 k (by omega) hk
+      rw [hiso] at this
+      exact absurd this (by simp)
+    · exact hge
+  have R := resolve_resolved hr
+  have n := R.nestW k (r.depth - depth + 1) (by omega) (by omega)
+  have p := R.pos_in (r.depth - depth + 1) (by omega)
+  refine ⟨hkb, r.start (r.depth - depth + 1) - 1, r.end_ (r.depth - depth + 1) + 1,
+    R.before_eq _ (by omega) (by omega), R.after_eq _ (by omega) (by omega), ?_, ?_, ?_, ?_⟩
+  all_goals omega
 
 end PM.C18
